@@ -177,6 +177,7 @@ func VerifyFunc(p *Program, fc *FuncContract, opts VerifyOpts) (rep *FuncReport)
 			g := x.safeEvalBool(post, e.E, fc.Key()+" ensures")
 			o := x.emit("post", fmt.Sprintf("ensures#%d", i+1), st2, g, e.Text)
 			o.Hyps = append(o.Hyps, hints...)
+			x.applyKnownRegions(o, post)
 		}
 		x.frameObligations(st2, post, fc)
 	})
@@ -333,4 +334,24 @@ func VerifyLemma(p *Program, lm *Lemma) *FuncReport {
 	rep.Obligations = x.obs
 	rep.LemmasUsed = sortedKeys(x.lemmasUsed)
 	return rep
+}
+
+// applyKnownRegions: a recorded known finding delimits a region R of the inputs in which the
+// obligation is known to fail. The obligation is then proved under not-R (so any other violation is
+// still reported) and a canary checks that the finding still reproduces inside R.
+func (x *Exec) applyKnownRegions(o *Obligation, env *SpecEnv) {
+	for _, kf := range knownRegions[o.Name] {
+		if kf.Region == "" {
+			continue
+		}
+		e, err := parseExpr(kf.Region)
+		if err != nil {
+			panic(fmt.Errorf("contract error in known_findings.json region for %s: %v", o.Name, err))
+		}
+		r := x.safeEvalBool(env, e, "known finding region")
+		canary := &Obligation{Name: o.Name, Kind: "known-finding-canary", Func: o.Func, Hyps: append(append([]*Term(nil), o.Hyps...), r),
+			Goal: o.Goal, Axioms: o.Axioms, Opaque: o.Opaque, Watch: o.Watch, Expect: "refuted", Note: kf.What, SpecDefs: o.SpecDefs}
+		x.obs = append(x.obs, canary)
+		o.Hyps = append(o.Hyps, Not(r))
+	}
 }
